@@ -313,6 +313,8 @@ def apply_event(tt_mod, objs, ev):
         return res_or_self(A.diag(lst))
     if op == 'Squeeze':
         return res_or_self(A.squeeze())
+    if op in ('OrthoLeft', 'OrthoRight', 'Ortho') and ev.get('dflt', True):
+        _nonbinding_caps_check(A, op)
     if op == 'OrthoLeft':
         r = A.ortho_left() if ev['dflt'] else A.ortho_left(start_index=ev['s'], end_index=ev['e'])
         if r is not A:
@@ -364,6 +366,12 @@ def apply_event(tt_mod, objs, ev):
             kw['max_rank'] = ev['maxrank']
         t = TT(x.copy(), **kw)
         check_trunc_error(ev, t, bounds_from_event=False)
+        if ev['thrp'] and not metadata_problem(t):
+            # a relative threshold does not see the scale of the tensor: the same data times 2^-44 give the same ranks
+            t2 = TT(x * 2.0 ** -44, **kw)
+            if metadata_problem(t2) or list(t2.ranks) != list(t.ranks):
+                raise Mismatch('rank', 'TT(array, threshold=%g): ranks %r for the tensor, %r for the tensor scaled by 2^-44' % (
+                    kw['threshold'], t.ranks, getattr(t2, 'ranks', None)))
         return [t]
     if op in ('Svd', 'Pinv'):
         return svd_pinv_event(tt_mod, A, ev, objs)
@@ -571,6 +579,28 @@ def svd_pinv_event(tt_mod, A, ev, objs):
     if opt['p'] and opt['ol'] and opt['orr']:
         _scaled_repr_check(A, ow, lambda B: np.asarray(B.svd(index, **kw)[1]), s, 'svd (singular values)')
     return [u, v]
+
+
+def _nonbinding_caps_check(A, op):
+    """C03 with a per-bond max_rank list that does not bind (100 everywhere): still "without truncation", and the list is
+    the caller's: it is first used for a rank-1 copy of the train, then for the train itself (on copies; A is untouched)"""
+    if metadata_problem(A) or A.order < 2 or A.ranks[0] != 1 or A.ranks[-1] != 1:
+        return
+    caps = [1] + [100] * (A.order - 1) + [1]
+    f = {'OrthoLeft': 'ortho_left', 'OrthoRight': 'ortho_right', 'Ortho': 'ortho'}[op]
+    w = A.copy()
+    w.ortho(max_rank=1)
+    getattr(w, f)(max_rank=caps)
+    B = A.copy()
+    before = contract(B.cores)
+    getattr(B, f)(max_rank=caps)
+    pm = metadata_problem(B)
+    if pm:
+        raise Mismatch('metadata', '%s(max_rank=[1, 100, .., 1]): %s' % (f, pm))
+    after = contract(B.cores)
+    if after.shape != before.shape or np.max(np.abs(after - before)) > 1e-9 * max(1.0, float(np.max(np.abs(before)))):
+        raise Mismatch('value', '%s(max_rank=[1, 100, .., 1]) with a list that was used for another train before changed the '
+                                'tensor although no cap binds (max abs error %.2e)' % (f, np.max(np.abs(after - before))))
 
 
 def _scaled_repr_check(A, ow, fn, ref, what):
